@@ -85,6 +85,13 @@ class FnW(GA.FnT):
                 return "(" + " || ".join(a for a, _ in parts) + ")", "bool"
         return GA.FnT.expr(self, e, env)
 
+    def cond(self, t, env, kt, kf):
+        if isinstance(t, ast.UnaryOp) and isinstance(t.op, ast.Not) and isinstance(t.operand, ast.Name) and env.get(t.operand.id) == "obytes":
+            n = t.operand.id      # not data: None or empty
+            return "(match v_%s with\n | None => %s\n | Some v_%s => (if (py_nonempty v_%s) then %s else %s) end)" % (
+                n, kt(dict(env)), n, n, kf(dict(env, **{n: "bytes"})), kt(dict(env)))
+        return GA.FnT.cond(self, t, env, kt, kf)
+
     def is_pure_call(self, c, env):
         if isinstance(c.func, ast.Name) and c.func.id == "list":
             return True
@@ -168,6 +175,19 @@ class FnW(GA.FnT):
                 if (env.get(a), env.get(b)) != ("oN", "listB"):
                     raise Unsupported("report entry")
                 return self.ret("(v_%s, v_%s)" % (a, b), env)
+            if self.recv_type == "thdr" and ast.unparse(s) == "self.data = self.unpack(self.storage.read(0))":
+                # unpack(None) raises (a file without header block)
+                return ("(let '(sg, v__d) := py_pm_read sg (Some 0%%N) in\n match v__d with\n | None => %s\n | Some v__d => (let %s := th_set_data (unpack header_format v__d) %s in\n %s) end)"
+                        % (self.fail(), self.recv, self.recv, nxt()))
+            if self.recv_type == "thdr" and ast.unparse(s) == "self.data = [0, TRAPH_VERSION.encode()]":
+                return "(let %s := th_set_data [VNum 0%%N; VBytes version_bytes] %s in\n %s)" % (self.recv, self.recv, nxt())
+            if self.recv_type == "thdr" and ast.unparse(s) == "self.storage = storage":
+                return nxt()
+            if self.recv_type == "thdr" and ast.unparse(s) == "empty_data = struct.pack(LRU_TRIE_HEADER_FORMAT, *self.data)":
+                return "(let v_empty_data := (pack header_format (th_data %s)) in\n %s)" % (self.recv, nxt(dict(env, empty_data="bytes")))
+            if self.recv_type == "thdr" and isinstance(s, ast.Expr) and ast.unparse(s) in ("self.__ensure()", "self.read()"):
+                coq = {"self.__ensure()": "py_thdr_ensure", "self.read()": "py_thdr_read"}[ast.unparse(s)]
+                return "(match %s %s sg with\n | None => %s\n | Some (%s, sg) => %s end)" % (coq, self.recv, self.fail(), self.recv, nxt())
             if isinstance(s, ast.AugAssign) and isinstance(s.op, ast.Add) and ast.unparse(s.target.value if isinstance(s.target, ast.Subscript) else s.target) == "self.data" \
                     and isinstance(s.target, ast.Subscript) and self.recv_type == "thdr":
                 i, ti = self.expr(s.target.slice, env)
@@ -282,6 +302,23 @@ def main(out):
             body = f.block(list(fn.body), {}, lambda e2: "(hd, sg)")
             T.out.append("Definition %s (hd : py_thdr) (sg : py_pm) : py_thdr * py_pm :=\n %s." % (coq, body))
         T.sigs[("thdr", name)] = {"kind": kind, "params": [], "rtype": rtype, "coq": coq}
+    def hio(name, coqname, const_check=None):
+        fn = HD.get(name) or HD.get("_LRUTrieHeader" + name)
+        if fn is None:
+            raise Unsupported("LRUTrieHeader.%s not found" % name)
+        f = FnW(T, fn, "hd", "thdr", True, None)
+        f.returns = []
+        f.has_sg = True
+        f.rcoq = "option (py_thdr * py_pm)"
+        body = f.block(list(fn.body), {"storage": "storage"} if name == "__init__" else {}, lambda e2: "(Some (hd, sg))")
+        T.out.append("Definition %s (hd : py_thdr) (sg : py_pm) : option (py_thdr * py_pm) :=\n %s." % (coqname, body))
+    GL.CONSTS["LRU_TRIE_HEADER_BLOCKS"] = ("trie_header_blocks", "N")
+    if "TRAPH_VERSION.encode()" not in init or [a.arg for a in HD["__init__"].args.args] != ["self", "storage"]:
+        raise Unsupported("LRUTrieHeader.__init__ signature")
+    hio("__ensure", "py_thdr_ensure")
+    hio("read", "py_thdr_read")
+    hio("__init__", "py_thdr_init_from")
+    T.out.append("Definition py_thdr_init (sg : py_pm) : option (py_thdr * py_pm) := py_thdr_init_from (mk_th []) sg.")
     hmethod("pack", "pure", "bytes")
     hmethod("write", "io")
     hmethod("last_webentity_id", "pure", "N")
